@@ -11,9 +11,12 @@ import (
 	"regexp"
 	"strings"
 
+	"raven/internal/blobstorage"
 	"raven/internal/db"
 	"raven/internal/delivery/config"
 	"raven/internal/delivery/parser"
+	"raven/internal/delivery/storage"
+	"raven/verifh/fakes3"
 	"raven/verifh/hx"
 	"raven/verifh/world"
 )
@@ -97,6 +100,9 @@ type env struct {
 	users  []string
 	ops    []string
 	checks []func(string)
+	fake   *fakes3.Fake               // an object store that can fail requests late
+	s3Stor *storage.Storage           // the delivery side with that object store enabled
+	s3Read *blobstorage.S3BlobStorage // the IMAP side's handle on it
 }
 
 var reExists = regexp.MustCompile(`\* (\d+) EXISTS`)
@@ -177,19 +183,23 @@ func (e *env) history(user string) []string {
 }
 
 type txCase struct {
-	shape  int
-	rcpts  []string
-	folder int // 0 INBOX, 1 Filed (exists for old users), 2 a folder nobody has yet
-	spam   bool
-	hist   bool
-	quota  bool // quota checking on, with a limit that full@example.com (recipient "FULL") has used up
+	shape     int
+	rcpts     []string
+	folder    int // 0 INBOX, 1 Filed (exists for old users), 2 a folder nobody has yet
+	spam      bool
+	hist      bool
+	quota     bool // quota checking on, with a limit that full@example.com (recipient "FULL") has used up
 	blobFault bool // the shared blob table refuses every new row during the transaction (trigger): fall back or refuse
+	s3Flaky   bool // the object store is enabled and fails the first upload of the transaction after it has read the body
 }
 
 func (t txCase) line() string {
 	l := fmt.Sprintf("tx %d %d %v %v %s", t.shape, t.folder, t.spam, t.hist, strings.Join(t.rcpts, ","))
 	if t.blobFault {
 		l += " blobfault"
+	}
+	if t.s3Flaky {
+		l += " s3flaky"
 	}
 	if t.quota {
 		l += " quota"
@@ -199,13 +209,14 @@ func (t txCase) line() string {
 
 func parseTx(l string) (txCase, bool) {
 	f := strings.Fields(l)
-	if len(f) < 6 || len(f) > 8 || f[0] != "tx" {
+	if len(f) < 6 || len(f) > 9 || f[0] != "tx" {
 		return txCase{}, false
 	}
 	var t txCase
 	for _, x := range f[6:] {
 		t.quota = t.quota || x == "quota"
 		t.blobFault = t.blobFault || x == "blobfault"
+		t.s3Flaky = t.s3Flaky || x == "s3flaky"
 	}
 	fmt.Sscan(f[1], &t.shape)
 	fmt.Sscan(f[2], &t.folder)
@@ -285,6 +296,18 @@ func (e *env) play(t txCase) {
 		cfg.Delivery.QuotaEnabled = true
 		cfg.Delivery.QuotaLimit = quotaLimit
 		e.rep.Hit("quota:on")
+	}
+	if t.s3Flaky && e.fake != nil {
+		// an object store that is up but fails one request late (the body has been sent): the upload is retried, falls back,
+		// or the delivery is refused — whatever is acknowledged can be fetched
+		e.fake.Mu.Lock()
+		e.fake.Script = []string{"500"}
+		e.fake.Mu.Unlock()
+		oldStor := e.w.Stor
+		e.w.Stor = e.s3Stor
+		e.w.Srv.SetS3Storage(e.s3Read)
+		defer func() { e.w.Stor = oldStor }()
+		e.rep.Hit("object-store:flaky")
 	}
 	if t.blobFault {
 		if _, err := e.w.Mgr.GetSharedDB().Exec("CREATE TRIGGER IF NOT EXISTS verif_refuse_blobs BEFORE INSERT ON blobs BEGIN SELECT RAISE(ABORT, 'injected: blob row refused'); END"); err == nil {
@@ -451,6 +474,21 @@ func main() {
 	}
 	defer w.Close()
 	e := &env{w: w, rep: rep, o: o, rng: hx.NewRng(o.Seed)}
+	e.fake = fakes3.New()
+	defer e.fake.Srv.Close()
+	mkS3 := func() *blobstorage.S3BlobStorage {
+		s3, err := blobstorage.NewS3BlobStorage(blobstorage.Config{Enabled: true, Endpoint: e.fake.Srv.URL, Region: "us-east-1", Bucket: "b", AccessKey: "k", SecretKey: "s", Timeout: 2})
+		if err != nil {
+			return nil
+		}
+		return s3
+	}
+	if s3 := mkS3(); s3 != nil {
+		e.s3Stor = storage.NewStorageWithS3(w.Mgr, s3)
+		e.s3Read = mkS3()
+	} else {
+		e.fake = nil
+	}
 	for i := 0; i < 4; i++ {
 		u := fmt.Sprintf("u%d@example.com", i)
 		e.users = append(e.users, u)
@@ -500,29 +538,33 @@ func main() {
 		nshape := len(shapes(e.rng, "x"))
 		// every shape once to one existing user, once to a mixed list
 		for s := 0; s < nshape; s++ {
-			txs = append(txs, txCase{s, []string{"u1@example.com"}, 0, false, false, false, false})
-			txs = append(txs, txCase{s, []string{"u2@example.com", "NEW", "team@example.com", "u2@example.com"}, 0, false, true, false, false})
+			txs = append(txs, txCase{s, []string{"u1@example.com"}, 0, false, false, false, false, false})
+			txs = append(txs, txCase{s, []string{"u2@example.com", "NEW", "team@example.com", "u2@example.com"}, 0, false, true, false, false, false})
 		}
 		// both role mailboxes in one transaction and in consecutive ones, into a folder neither has yet, and as spam
-		txs = append(txs, txCase{0, []string{"team@example.com", "desk@example.com"}, 2, false, false, false, false})
-		txs = append(txs, txCase{1, []string{"desk@example.com", "team@example.com", "u1@example.com"}, 2, false, false, false, false})
-		txs = append(txs, txCase{0, []string{"team@example.com", "desk@example.com"}, 1, false, false, false, false})
-		txs = append(txs, txCase{0, []string{"desk@example.com"}, 1, true, false, false, false})
+		txs = append(txs, txCase{0, []string{"team@example.com", "desk@example.com"}, 2, false, false, false, false, false})
+		txs = append(txs, txCase{1, []string{"desk@example.com", "team@example.com", "u1@example.com"}, 2, false, false, false, false, false})
+		txs = append(txs, txCase{0, []string{"team@example.com", "desk@example.com"}, 1, false, false, false, false, false})
+		txs = append(txs, txCase{0, []string{"desk@example.com"}, 1, true, false, false, false, false})
 		// the shared blob table refuses new rows while messages with out-of-line parts are delivered (every shape, so that the
 		// large and the attachment-bearing ones are among them): accepted ⇒ retrievable, or refused
 		for sidx := 0; sidx < nshape; sidx++ {
 			txs = append(txs, txCase{shape: sidx, rcpts: []string{"u1@example.com", "NEW"}, blobFault: true})
 		}
+		// the object store enabled and failing one upload late, for every shape
+		for sidx := 0; sidx < nshape; sidx++ {
+			txs = append(txs, txCase{shape: sidx, rcpts: []string{"u2@example.com", "NEW"}, s3Flaky: true})
+		}
 		// the delivery folder of an existing user is renamed away between two deliveries to it
-		txs = append(txs, txCase{0, []string{"u3@example.com"}, 1, false, false, false, false})
-		txs = append(txs, txCase{-1, []string{"u3@example.com"}, 1, false, false, false, false})
-		txs = append(txs, txCase{0, []string{"u3@example.com"}, 1, false, false, false, false})
-		txs = append(txs, txCase{0, []string{"u3@example.com"}, 0, true, false, false, false})
-		txs = append(txs, txCase{-2, []string{"u3@example.com"}, 0, true, false, false, false})
-		txs = append(txs, txCase{0, []string{"u3@example.com"}, 0, true, false, false, false})
+		txs = append(txs, txCase{0, []string{"u3@example.com"}, 1, false, false, false, false, false})
+		txs = append(txs, txCase{-1, []string{"u3@example.com"}, 1, false, false, false, false, false})
+		txs = append(txs, txCase{0, []string{"u3@example.com"}, 1, false, false, false, false, false})
+		txs = append(txs, txCase{0, []string{"u3@example.com"}, 0, true, false, false, false, false})
+		txs = append(txs, txCase{-2, []string{"u3@example.com"}, 0, true, false, false, false, false})
+		txs = append(txs, txCase{0, []string{"u3@example.com"}, 0, true, false, false, false, false})
 		// quota on: the over-quota recipient first, in the middle, last, twice, alone; the others are new users and the role
 		for _, rc := range [][]string{{"FULL", "NEW"}, {"NEW", "FULL", "NEW"}, {"NEW", "FULL"}, {"FULL", "team@example.com", "FULL", "NEW"}, {"FULL"}, {"FULL", "FULL", "NEW", "NEW"}} {
-			txs = append(txs, txCase{0, rc, 0, false, false, true, false})
+			txs = append(txs, txCase{0, rc, 0, false, false, true, false, false})
 		}
 		n := 60
 		if o.Thorough {
@@ -547,10 +589,10 @@ func main() {
 				for j := 0; j < 1+e.rng.Intn(4); j++ {
 					q = append(q, e.rng.Pick([]string{"FULL", "FULL", "NEW", "NEW", "team@example.com"}))
 				}
-				txs = append(txs, txCase{e.rng.Intn(nshape), q, e.rng.Intn(3), e.rng.Chance(15), false, true, false})
+				txs = append(txs, txCase{e.rng.Intn(nshape), q, e.rng.Intn(3), e.rng.Chance(15), false, true, false, false})
 				continue
 			}
-			txs = append(txs, txCase{e.rng.Intn(nshape), rc, e.rng.Intn(3), e.rng.Chance(15), e.rng.Chance(60), false, false})
+			txs = append(txs, txCase{e.rng.Intn(nshape), rc, e.rng.Intn(3), e.rng.Chance(15), e.rng.Chance(60), false, false, false})
 		}
 	}
 	for _, t := range txs {
